@@ -241,6 +241,12 @@ pub fn op_parse(s: &str) -> String {
         let should_nls = !s.is_empty() && !s.starts_with('/');
         let is_nls = matches!(e1, ParseError::NoLeadingSlash);
         law_truth.ck(is_nls == should_nls, "nls_iff_no_leading_slash");
+        // the predicate and offset accessors say what the variant says
+        law_truth.ck(
+            guard(|| (e1.is_no_leading_slash(), e1.is_invalid_encoding())) == Some((is_nls, !is_nls)),
+            "is_predicates_disagree_with_variant",
+        );
+        law_truth.ck(guard(|| e1.offset()) == Some(e1.pointer_offset()), "offset_accessor_is_not_pointer_offset");
         let lab = match &label {
             Some(l) => *l,
             None => {
@@ -293,6 +299,22 @@ pub fn op_parse(s: &str) -> String {
                 let _ = d.source_code().is_some();
             }
             let _ = write!(sink, "{}", <ParseError as Diagnostic>::url());
+            {
+                // the cause chain, as an error reporter walks it
+                let mut cur: Option<&(dyn std::error::Error + 'static)> = std::error::Error::source(e1);
+                let mut depth = 0;
+                while let Some(c) = cur {
+                    let _ = write!(sink, "{}{:?}", c, c);
+                    cur = c.source();
+                    depth += 1;
+                    if depth > 8 { break; }
+                }
+            }
+            if let Err(rep) = PointerBuf::parse(s.to_string()) {
+                // rendered the way the crate's documentation shows: through miette's graphical handler
+                let h = miette::GraphicalReportHandler::new_themed(miette::GraphicalTheme::unicode_nocolor()).with_width(80);
+                let _ = h.render_report(&mut sink, &rep);
+            }
             if let Err(rep) = PointerBuf::parse(s.to_string()) {
                 let _ = write!(sink, "{}", rep);
                 let _ = write!(sink, "{:?}", rep);
@@ -533,6 +555,9 @@ pub fn op_index_str(s: &str) -> String {
         law_forms.ck(Index::try_from(t.clone()) == rt, "try_from_token");
         law_forms.ck(t.to_index() == rt, "to_index");
         law_forms.ck(t.is_next() == (t.encoded() == "-"), "is_next");
+        if let Ok(Index::Num(n)) = &r {
+            law_forms.ck(Index::from(*n) == Index::Num(*n), "from_usize");
+        }
     }
     let mut law_truth = Law::new();
     if let Err(e) = &r {
@@ -648,6 +673,21 @@ pub fn op_conv(p: &Pointer) -> String {
             }
             Err(_) => ck(name, false),
         }
+    }
+    {
+        // borrowed views of the same text through the std conversion traits
+        let buf = p.to_buf();
+        ck("borrow_str", <Pointer as std::borrow::Borrow<str>>::borrow(p) == text);
+        ck("as_ref_ptr", <PointerBuf as AsRef<Pointer>>::as_ref(&buf).as_str() == text);
+        ck("borrow_ptr", <PointerBuf as std::borrow::Borrow<Pointer>>::borrow(&buf).as_str() == text);
+        ck("ptr_as_ref_ptr", <Pointer as AsRef<Pointer>>::as_ref(p).as_str() == text && std::ptr::eq(<Pointer as AsRef<Pointer>>::as_ref(p), p));
+        ck("ptr_as_ref_str", <Pointer as AsRef<str>>::as_ref(p) == text);
+        ck("ptr_as_ref_bytes", <Pointer as AsRef<[u8]>>::as_ref(p) == text.as_bytes());
+        ck("deref", (&*buf).as_str() == text);
+        // SAFETY: `text` is the text of a valid pointer
+        ck("new_unchecked", unsafe { PointerBuf::new_unchecked(text.to_string()) }.as_str() == text);
+        let dflt: &Pointer = Default::default();
+        ck("default", dflt.as_str().is_empty() && PointerBuf::default().as_str().is_empty());
     }
     ck("to_json_value", p.to_json_value() == serde_json::Value::String(text.to_string()));
     ck("value_from", serde_json::Value::from(p) == serde_json::Value::String(text.to_string()));
